@@ -25,6 +25,9 @@ RULES = {
              'selected database; has_permission requires the kind and a matching pattern',
     'C09.c': 'SelectedDatabase.{name,user_name} are written only in the UseDb arm after the token check succeeded; '
              'Client.auth is set true only after both credential comparisons or on a node-link client created locally',
+    'C09.e': 'no argument of a client command can carry a line break into the line-based node-to-node stream (whose reader runs every '
+             'line with administrator rights): every String field a parser puts into a Request comes from text that passed a '
+             'line-break-removing call, in the parser or in Request::parse before the parsers are dispatched',
     'C09.d': 'credentials are not carried over: a transport that accepts requests in a loop creates a fresh Client inside that '
              'loop; has_permission reads the permission list from Database.map on every call',
 }
@@ -69,6 +72,11 @@ def is_shared(kind, info):
 
 
 def run(ck, m):
+    _run(ck, m)
+    framing_rule(ck, m)
+
+
+def _run(ck, m):
     for k, v in RULES.items():
         ck.rule(k, v)
     ex = m.explorer()
@@ -587,3 +595,80 @@ def writers(ck, m):
                   'selection replaced only on the branch where the token check answered true' if ok else
                   'selection replaced on a path where no token check answered true', ev.loc())
     ck.floor('C09.c', n, 3, 'selection replacements in the UseDb arm')
+
+
+
+def framing_rule(ck, m, rule='C09.e'):
+    """arguments are cleaned of line breaks before they can be copied into a replicated message"""
+    from props import C10
+    P = m.prog
+    parsers, words = C10.parser_table(m)
+
+    def removes_breaks(b, t):
+        return callee_decl(t) == 'std::str::replace' and len(t['args']) > 1 and any(core.const_str(q) == '\n' for q in origins(b, t['args'][1]))
+
+    # central cleaning: in Request::parse the iterator handed to the table function is built (splitn / split) from text that
+    # passed the cleaning call
+    central = False
+    pf = [b for b in P.user_bodies() if b.id.endswith('<impl nundb::bo::Request>::parse')]
+    from nl.locks import backward_slice
+    for b in pf:
+        splits = [bi for bi, t in b.calls() if callee_decl(t) in ('std::str::splitn', 'std::str::split', 'std::str::split_whitespace')
+                  and any(removes_breaks(b, b.term(c)) for c in backward_slice(b, t['args'][0])[0])]
+        for x, tx in b.calls():
+            if not (tx['f'].get('ind') or callee_decl(tx).split('::')[-1] in ('call', 'call_once', 'call_mut')):
+                continue
+            fed = set()
+            for a_ in tx['args']:
+                fed |= backward_slice(b, a_)[0]
+            if fed & set(splits):
+                central = True
+    ck.ob(rule, 'Request::parse', 'arguments-cleaned-centrally', True,
+          'Request::parse removes line breaks from the arguments before it dispatches to the parser table' if central else
+          'Request::parse hands the raw text to the parsers: each String field is judged at its parser', pf[0].loc(0) if pf else '')
+    if central:
+        ck.floor(rule, len(set(parsers)), 35, 'parsers covered by the central cleaning')
+        return
+
+    def cleaned(b, op, depth=0):
+        res = True
+        rs = origins(b, op, stop_at_calls=True)
+        if not rs:
+            return False
+        for r in rs:
+            if r[0] == 'const':
+                continue
+            if r[0] == 'call':
+                t = b.term(r[1])
+                d = callee_decl(t)
+                if removes_breaks(b, t):
+                    continue
+                if (d in core.LOOK_THROUGH or d in ('std::option::Option::unwrap_or', 'std::string::String::from', 'std::str::trim',
+                                                    'std::str::to_lowercase', 'std::str::to_uppercase')) and t['args'] and depth < 6:
+                    if cleaned(b, t['args'][0], depth + 1):
+                        continue
+                return False
+            else:
+                return False
+        return res
+    n = 0
+    for fn in sorted(set(parsers)):
+        b = P.bodies[fn]
+        scope = [b] + [P.bodies[k] for k in P.bodies if k.startswith(fn + '::{closure')]
+        for sb in scope:
+            for bl in sb.blocks:
+                for s in bl['s']:
+                    if s['k'] == 'assign' and s['r']['k'] == 'agg' and s['r'].get('adt') == 'nundb::bo::Request':
+                        rv = s['r']
+                        var = [v for v in P.adts['nundb::bo::Request']['variants'] if v['name'] == rv['variant']][0]
+                        for f, op in zip(var['fields'], rv['ops']):
+                            if f['ty'] != 'std::string::String':
+                                continue
+                            n += 1
+                            ok = cleaned(sb, op)
+                            ck.ob(rule, short(fn), '%s.%s:no-line-break' % (rv['variant'], f['name']), ok,
+                                  'line breaks are removed from %s.%s' % (rv['variant'], f['name']) if ok else
+                                  '%s.%s keeps a line break sent over http / ws: copied into a replicated message it ends the line on the '
+                                  'node link, and the rest (`set k\\nset-primary x` -> `set-primary -1 x`) is executed by the other nodes '
+                                  'as a command of the administrator connection' % (rv['variant'], f['name']), '%s:%s' % (sb.file, sb.line))
+    ck.floor(rule, n, 40, 'String fields of Request built by the parsers')
